@@ -96,9 +96,23 @@ pub fn canon_db(db: DbPasswordV1) -> String {
     }
 }
 
+static QUIET: std::sync::atomic::AtomicBool = std::sync::atomic::AtomicBool::new(false);
+
+/// Panics caught on purpose (inside `kverify` / `ktry`) stay silent; any other panic is reported as usual.
+pub fn install_quiet_hook() {
+    let default = std::panic::take_hook();
+    std::panic::set_hook(Box::new(move |info| {
+        if !QUIET.load(std::sync::atomic::Ordering::SeqCst) {
+            default(info);
+        }
+    }));
+}
+
 /// `Password::verify` with panics turned into a value (a panic is never an accept).
 pub fn kverify(p: &Password, ct: &str) -> Result<bool, String> {
+    QUIET.store(true, std::sync::atomic::Ordering::SeqCst);
     let r = std::panic::catch_unwind(std::panic::AssertUnwindSafe(|| p.verify(ct)));
+    QUIET.store(false, std::sync::atomic::Ordering::SeqCst);
     match r {
         Ok(Ok(b)) => Ok(b),
         Ok(Err(e)) => Err(format!("error:{e:?}")),
@@ -107,7 +121,10 @@ pub fn kverify(p: &Password, ct: &str) -> Result<bool, String> {
 }
 
 pub fn ktry(imp: &str) -> Result<Result<Password, PasswordError>, String> {
-    std::panic::catch_unwind(|| Password::try_from(imp)).map_err(|_| "panic".to_string())
+    QUIET.store(true, std::sync::atomic::Ordering::SeqCst);
+    let r = std::panic::catch_unwind(|| Password::try_from(imp)).map_err(|_| "panic".to_string());
+    QUIET.store(false, std::sync::atomic::Ordering::SeqCst);
+    r
 }
 
 const LETTERS: &str = "abcdefghijklmnopqrstuvwxyzABCDEFGHIJKLMNOPQRSTUVWXYZ0123456789";
